@@ -965,6 +965,19 @@ class HttpPayloadParser:
             bytes - If payload is complete, this is the unconsumed bytes intended for the
                     next message/payload, b"" otherwise.
         """
+        state, tail = self._feed_data(chunk, SEP, CHUNK_EXT)
+        if state is not PayloadState.PAYLOAD_HAS_PENDING_INPUT:
+            # A pause request that found nothing to hold back must not outlive
+            # the call (the C parser clears it at the end of cb_on_body too).
+            # Otherwise it stops the *next* call before anything is fed and
+            # returns PAYLOAD_HAS_PENDING_INPUT although nobody is paused and
+            # therefore nobody will ever resume the parser.
+            self._paused = False
+        return state, tail
+
+    def _feed_data(
+        self, chunk: bytes, SEP: _SEP, CHUNK_EXT: bytes
+    ) -> tuple[PayloadState, bytes]:
         # Read specified amount of bytes
         if self._type == ParseState.PARSE_LENGTH:
             if self._chunk_tail:
